@@ -27,8 +27,46 @@ fn bulk(r: &RespValue) -> Option<String> {
     }
 }
 
+/// A node of the cluster under test: a production shard actor, or the simulator's node (multi_node.rs: executor +
+/// ShardReplicaState + the glue of SimulatedNode::execute / apply_remote_deltas).
+enum NodeH {
+    Actor(ReplicatedShardHandle),
+    Sim(std::cell::RefCell<redis_sim::simulator::multi_node::SimulatedNode>),
+}
+
+impl NodeH {
+    async fn execute(&self, cmd: Command) -> (RespValue, Option<ReplicationDelta>) {
+        match self {
+            NodeH::Actor(h) => h.execute(cmd).await,
+            NodeH::Sim(n) => {
+                let mut n = n.borrow_mut();
+                let r = n.execute(&cmd);
+                let mut ds: Vec<ReplicationDelta> = n.drain_deltas().into_iter().filter(|d| d.key == KEY).collect();
+                (r, ds.pop())
+            }
+        }
+    }
+    fn apply_remote_delta(&self, d: ReplicationDelta) {
+        match self {
+            NodeH::Actor(h) => h.apply_remote_delta(d),
+            NodeH::Sim(n) => n.borrow_mut().apply_remote_deltas(vec![d]),
+        }
+    }
+    async fn snapshot_key(&self) -> Option<redis_sim::replication::state::ReplicatedValue> {
+        match self {
+            NodeH::Actor(h) => h.get_snapshot().await.get(KEY).cloned(),
+            NodeH::Sim(n) => n.borrow().replica_state.replicated_keys.get(KEY).cloned(),
+        }
+    }
+    async fn shutdown(&self) {
+        if let NodeH::Actor(h) = self {
+            h.shutdown().await;
+        }
+    }
+}
+
 /// What a node serves for the key: [t, v, h] like Replication.tla's served value.
-async fn served(h: &ReplicatedShardHandle) -> Value {
+async fn served(h: &NodeH) -> Value {
     let t = h.execute(argv_cmd(&["TYPE", KEY])).await.0;
     let ts = match &t {
         RespValue::SimpleString(s) => s.to_string(),
@@ -56,9 +94,9 @@ async fn served(h: &ReplicatedShardHandle) -> Value {
     }
 }
 
-async fn node_view(h: &ReplicatedShardHandle) -> Value {
-    let snap = h.get_snapshot().await;
-    let rs = match snap.get(KEY) {
+async fn node_view(h: &NodeH) -> Value {
+    let snap = h.snapshot_key().await;
+    let rs = match &snap {
         Some(v) => obs(v),
         None => json!({"absent": true}),
     };
@@ -74,6 +112,7 @@ fn cmd_of(step: &Value, with_get: bool) -> Command {
     let e = step["e"].as_i64().unwrap_or(-1);
     let es = e.to_string();
     match step["op"].as_str().unwrap() {
+        "set" if e >= 0 && e % 1000 == 0 && with_get => argv_cmd(&["SET", KEY, v, "EX", &(e / 1000).to_string()]),
         "set" if e >= 0 => argv_cmd(&["SET", KEY, v, "PX", &es]),
         "set" => argv_cmd(&["SET", KEY, v]),
         "setnx" if with_get => argv_cmd(&["SET", KEY, v, "NX", "GET"]),
@@ -90,7 +129,8 @@ fn cmd_of(step: &Value, with_get: bool) -> Command {
 }
 
 struct Cluster {
-    nodes: Vec<ReplicatedShardHandle>,
+    nodes: Vec<NodeH>,
+    sim: bool,
     deltas: BTreeMap<u64, (usize, ReplicationDelta)>, // seq -> (origin, delta)
     nsent: u64,
     run: usize,
@@ -99,9 +139,23 @@ struct Cluster {
 
 impl Cluster {
     fn new(run: usize, nn: usize, log: &mut Vec<Value>) -> Cluster {
-        let nodes = (1..=nn).map(|i| ReplicatedShardActor::spawn(ReplicaId::new(i as u64), ConsistencyLevel::Eventual, 0)).collect();
+        Cluster::with(run, nn, false, log)
+    }
+    /// `sim`: the nodes are the simulator's (multi_node.rs), built as MultiNodeSimulation::new builds them.
+    fn with(run: usize, nn: usize, sim: bool, log: &mut Vec<Value>) -> Cluster {
+        let nodes = (1..=nn)
+            .map(|i| {
+                if sim {
+                    let peers = (1..=nn).filter(|j| *j != i).map(|j| format!("127.0.0.1:{}", 3000 + j)).collect();
+                    let cfg = redis_sim::replication::ReplicationConfig::new_cluster(i as u64, peers);
+                    NodeH::Sim(std::cell::RefCell::new(redis_sim::simulator::multi_node::SimulatedNode::new(i - 1, cfg)))
+                } else {
+                    NodeH::Actor(ReplicatedShardActor::spawn(ReplicaId::new(i as u64), ConsistencyLevel::Eventual, 0))
+                }
+            })
+            .collect();
         log.push(json!({"a": "reset", "run": run, "n": nn}));
-        Cluster { nodes, deltas: BTreeMap::new(), nsent: 0, run, ncmd: 0 }
+        Cluster { nodes, sim, deltas: BTreeMap::new(), nsent: 0, run, ncmd: 0 }
     }
     /// Executes one step; returns the sequence number of the delta a client step produced (0 = none).
     async fn step(&mut self, st: &Value, log: &mut Vec<Value>) -> u64 {
@@ -111,7 +165,8 @@ impl Cluster {
             "client" => {
                 let n = st["n"].as_u64().unwrap() as usize;
                 self.ncmd += 1;
-                let with_get = (self.ncmd + self.run as u64) % 3 == 0;
+                // (for the simulator's nodes the flag selects EX, the only expiry option its glue looks at)
+                let with_get = if self.sim { st["op"] == "set" } else { (self.ncmd + self.run as u64) % 3 == 0 };
                 let (resp, d) = self.nodes[n - 1].execute(cmd_of(st, with_get)).await;
                 ev["err"] = json!(matches!(resp, RespValue::Error(_)));
                 ev["reply"] = json!(format!("{resp:?}"));
@@ -133,8 +188,8 @@ impl Cluster {
             "ae" => {
                 let from = st["from"].as_u64().unwrap() as usize;
                 let to = st["to"].as_u64().unwrap() as usize;
-                let snap = self.nodes[from - 1].get_snapshot().await;
-                if let Some(v) = snap.get(KEY) {
+                let snap = self.nodes[from - 1].snapshot_key().await;
+                if let Some(v) = &snap {
                     self.nodes[to - 1].apply_remote_delta(ReplicationDelta::new(KEY.into(), v.clone(), ReplicaId::new(from as u64)));
                 } else {
                     ev["skipped"] = json!(true);
@@ -168,8 +223,8 @@ async fn run_async(run: usize, nn: usize, steps: Vec<Value>, log: &mut Vec<Value
 
 /// Random run: client commands at random nodes; the deltas really produced are delivered in
 /// random order, some twice, some only after later commands; occasional anti-entropy; ends quiescent.
-async fn run_random(run: usize, nn: usize, kinds: &[&str], rng: &mut rand_chacha::ChaCha8Rng, log: &mut Vec<Value>) {
-    let mut c = Cluster::new(run, nn, log);
+async fn run_random(run: usize, nn: usize, kinds: &[&str], sim: bool, rng: &mut rand_chacha::ChaCha8Rng, log: &mut Vec<Value>) {
+    let mut c = Cluster::with(run, nn, sim, log);
     let mut inflight: Vec<(u64, usize)> = Vec::new();
     let ncmd = rng.gen_range(2..=7);
     for _ in 0..ncmd {
@@ -177,7 +232,7 @@ async fn run_random(run: usize, nn: usize, kinds: &[&str], rng: &mut rand_chacha
         let op = kinds[rng.gen_range(0..kinds.len())];
         let v = ["1", "2", "x", ""][rng.gen_range(0..4)];
         let f = ["f", "g"][rng.gen_range(0..2)];
-        let e = if op == "set" && rng.gen_bool(0.3) { [500, 5000][rng.gen_range(0..2)] } else { -1 };
+        let e = if op == "set" && rng.gen_bool(0.3) { [if sim { 7000 } else { 500 }, 5000][rng.gen_range(0..2)] } else { -1 };
         let seq = c.step(&json!({"a": "client", "n": n, "op": op, "v": v, "f": f, "e": e}), log).await;
         if seq != 0 {
             for to in 1..=nn {
@@ -477,6 +532,143 @@ pub fn main(args: &[String]) -> i32 {
                 out.emit(&ev);
             }
         }
+        // the simulator's nodes (multi_node.rs) under the same rules: SET (plain, NX, XX, EX) and DEL, the commands its glue replicates
+        Some("simnode") => {
+            let mut rng = rng(a.u64("seed", 1));
+            let kinds = ["set", "setnx", "setxx", "del", "set"];
+            for i in 0..a.usize("n", 100) {
+                let nn = 2 + i % 3;
+                let mut log = Vec::new();
+                let r = catch(|| rt.block_on(run_random(i + 1, nn, &kinds, true, &mut rng, &mut log)));
+                for ev in &log {
+                    out.emit(ev);
+                }
+                if let Err(p) = r {
+                    out.emit(&json!({"a": "panic", "run": i + 1, "msg": p}));
+                }
+            }
+        }
+        // the simulator's whole cluster (MultiNodeSimulation): its own network (delays, loss, partitions that drop), its own gossip
+        // rounds (broadcast, or selective through the hash ring), its own anti-entropy.  Stamps are read off the accepting node
+        // after each write; at the end everything is healed and delivered (gossip until the queue is empty, anti-entropy until no
+        // digest differs): ReplTrace!SimClusterVerdict demands that every responsible node holds and serves, for every key, the
+        // write with the greatest stamp, and that a node never serves what its replication state does not say.
+        Some("simcluster") => {
+            use redis_sim::simulator::multi_node::MultiNodeSimulation;
+            let mut rng = rng(a.u64("seed", 1));
+            let show = |r: &RespValue| -> String {
+                match r {
+                    RespValue::BulkString(Some(b)) => String::from_utf8_lossy(b).to_string(),
+                    RespValue::BulkString(None) => "<nil>".to_string(),
+                    o => format!("{o:?}"),
+                }
+            };
+            for run in 1..=a.usize("n", 40) {
+                let nn = rng.gen_range(2..=5usize);
+                let selective = rng.gen_bool(0.5);
+                let rf = if selective { rng.gen_range(1..=nn) } else { nn };
+                let calm = rng.gen_bool(0.4);      // no partition, no loss: selective gossip alone has to reach every owner
+                let loss = if calm { 0.0 } else { [0.0, 0.0, 0.3][rng.gen_range(0..3)] };
+                let nk = rng.gen_range(1..=4usize);
+                let keys: Vec<String> = (1..=nk).map(|i| format!("sk{run}:{i}")).collect();
+                let r = catch(|| {
+                    let mut sim = if selective { MultiNodeSimulation::new_partitioned(nn, rf, run as u64 * 7 + 1) } else { MultiNodeSimulation::new(nn, run as u64 * 7 + 1) };
+                    sim = sim.with_packet_loss(loss).with_auto_anti_entropy(rng.gen_bool(0.5));
+                    if rng.gen_bool(0.3) {
+                        sim = sim.with_message_delay(0, 60);
+                    }
+                    let mut writes: Vec<Value> = Vec::new();
+                    let mut steps: Vec<Value> = Vec::new();
+                    let mut cut = false;
+                    let stamp_of = |sim: &MultiNodeSimulation, n: usize, k: &str| -> Option<(u64, u64, String)> {
+                        sim.nodes[n].replica_state.replicated_keys.get(k).map(|rv| {
+                            let v = if rv.is_tombstone() { "<del>".to_string() } else { rv.get().map(|s| String::from_utf8_lossy(s.as_bytes()).to_string()).unwrap_or_else(|| "<none>".into()) };
+                            (rv.timestamp.time, rv.timestamp.replica_id.0, v)
+                        })
+                    };
+                    for serial in 1..=rng.gen_range(4..=24usize) {
+                        match rng.gen_range(if calm { 2 } else { 0 }..10) {
+                            0 => { let (x, y) = (rng.gen_range(0..nn), rng.gen_range(0..nn)); if x != y { sim.partition(x, y); cut = true; } }
+                            1 => { let (x, y) = (rng.gen_range(0..nn), rng.gen_range(0..nn)); if x != y { sim.heal_partition(x, y); } }
+                            2 | 3 => { sim.advance_time_ms(rng.gen_range(1..40)); sim.gossip_round(); }
+                            c => {
+                                let n = rng.gen_range(0..nn);
+                                let ki = rng.gen_range(0..nk);
+                                let val = format!("v{serial}");
+                                let mut touched = vec![ki];
+                                let argv: Vec<String> = match c {
+                                    4 | 5 | 6 => vec!["SET".into(), keys[ki].clone(), val],
+                                    7 => vec!["SET".into(), keys[ki].clone(), val, ["NX", "XX"][rng.gen_range(0..2)].into()],
+                                    8 => vec!["DEL".into(), keys[ki].clone()],
+                                    _ => { let k2 = rng.gen_range(0..nk); if k2 != ki { touched.push(k2); } vec!["DEL".into(), keys[ki].clone(), keys[k2].clone()] }
+                                };
+                                let before: Vec<_> = touched.iter().map(|k| stamp_of(&sim, n, &keys[*k])).collect();
+                                let av: Vec<&str> = argv.iter().map(|s| s.as_str()).collect();
+                                let reply = sim.execute(0, n, argv_cmd(&av));
+                                for (j, k) in touched.iter().enumerate() {
+                                    let after = stamp_of(&sim, n, &keys[*k]);
+                                    if after != before[j] {
+                                        let (t, r, v) = after.clone().unwrap();
+                                        writes.push(json!({"k": k + 1, "n": n + 1, "t": t, "r": r, "v": v}));
+                                    }
+                                    let get = show(&sim.nodes[n].executor.execute(&argv_cmd(&["GET", &keys[*k]])));
+                                    let rsv = match &after { Some((_, _, v)) if v != "<del>" => v.clone(), _ => "<nil>".to_string() };
+                                    steps.push(json!({"n": n + 1, "k": k + 1, "argv": argv, "reply": format!("{reply:?}"), "get": get, "rsv": rsv}));
+                                }
+                            }
+                        }
+                    }
+                    // the network heals; whatever is queued arrives; what was dropped is made up for by anti-entropy
+                    for x in 0..nn {
+                        for y in (x + 1)..nn {
+                            sim.heal_partition(x, y);
+                        }
+                    }
+                    sim.packet_loss_rate = 0.0;
+                    let mut rounds = 0;
+                    loop {
+                        sim.advance_time_ms(100);
+                        sim.gossip_round();
+                        rounds += 1;
+                        if (sim.message_queue.is_empty() && rounds >= 2) || rounds > 60 {
+                            break;
+                        }
+                    }
+                    let ae = cut || loss > 0.0 || rng.gen_bool(0.5);
+                    let mut ae_rounds = 0;
+                    if ae {
+                        loop {
+                            sim.run_full_anti_entropy();
+                            ae_rounds += 1;
+                            let ds: Vec<_> = sim.nodes.iter().map(|n| n.generate_digest()).collect();
+                            if ds.iter().all(|d| !d.differs_from(&ds[0])) || ae_rounds > 40 {
+                                break;
+                            }
+                        }
+                    }
+                    // who must hold key k: everybody after anti-entropy (it ships whole buckets to every peer) or under
+                    // broadcast gossip; under selective gossip alone, the ring's replicas of the key
+                    let resp: Vec<Vec<usize>> = keys.iter().map(|k| match (&sim.hash_ring, ae) {
+                        (Some(ring), false) => { let mut v: Vec<usize> = ring.read().unwrap().get_replicas(k).iter().map(|r| r.0 as usize).collect(); v.sort(); v }
+                        _ => (1..=nn).collect(),
+                    }).collect();
+                    let views: Vec<Value> = (0..nn).map(|n| {
+                        let gets: Vec<String> = keys.iter().map(|k| show(&sim.nodes[n].executor.execute(&argv_cmd(&["GET", k])))).collect();
+                        let rs: Vec<Value> = keys.iter().map(|k| match stamp_of(&sim, n, k) { Some((t, r, v)) => json!([t, r, v]), None => json!([]) }).collect();
+                        json!({"gets": gets, "rs": rs})
+                    }).collect();
+                    json!({"a": "simcluster", "nn": nn, "nk": nk, "selective": selective, "rf": rf, "loss": loss > 0.0, "cut": cut, "ae": ae,
+                           "queue_left": sim.message_queue.len(), "ae_rounds": ae_rounds,
+                           "writes": writes,
+                           "steps": steps, "resp": resp, "views": views})
+                });
+                out.emit(&json!({"a": "reset", "run": run, "n": 2}));
+                match r {
+                    Ok(mut ev) => { ev["run"] = json!(run); out.emit(&ev); }
+                    Err(p) => out.emit(&json!({"a": "panic", "run": run, "msg": p})),
+                }
+            }
+        }
         Some("record") => {
             let mut rng = rng(a.u64("seed", 1));
             let reg = ["set", "setnx", "setxx", "getset", "del", "incr", "append"];
@@ -490,7 +682,7 @@ pub fn main(args: &[String]) -> i32 {
                     _ => &all,
                 };
                 let mut log = Vec::new();
-                let r = catch(|| rt.block_on(run_random(i + 1, nn, kinds, &mut rng, &mut log)));
+                let r = catch(|| rt.block_on(run_random(i + 1, nn, kinds, false, &mut rng, &mut log)));
                 for ev in &log {
                     out.emit(ev);
                 }
